@@ -104,11 +104,11 @@ int main(int argc, char* argv[])
     // random part: arbitrary (non-contiguous) index values, larger n, sampling, balls
     for (int64_t i = 0; i < nrand; ++i)
     {
-        const auto n     = rng.coin(1, 10) ? rng.range(200, 5000) : rng.range(2, 120);
+        const auto n     = rng.coin(1, 5) ? rng.range(200, 5000) : rng.range(2, 120);
         const auto input = make_input(rng, n, false);
-        const auto folds = rng.range(2, std::min<int64_t>(n, 10));
+        const auto folds = rng.range(2, std::min<int64_t>(n, 12));
         split_case("k-fold", input, folds, rng.range(0, 1024), 0);
-        split_case("random", input, rng.range(2, 4), rng.range(0, 1024), rng.range(10, 90));
+        split_case("random", input, rng.range(2, 12), rng.range(0, 1024), rng.range(10, 90));
 
         auto srng = make_rng(static_cast<uint64_t>(rng.range(0, 1 << 30)));
         const auto count = rng.coin(1, 6) ? (rng.coin() ? 0 : n) : rng.range(0, n);
